@@ -256,9 +256,15 @@ def judge_shard(args):
         f.write("Eval vm_compute in (map (fun v => "
                 "(v_agree v, v_prop v, v_known v, v_malformed v)) r).\n")
     t0 = time.time()
-    p = subprocess.run(["coqc", "-noglob", "-Q", os.path.join(COQ, "theories"), "IB", path],
-                       cwd=rundir, stdout=subprocess.PIPE, stderr=subprocess.STDOUT,
-                       timeout=3000)
+    for attempt in range(4):
+        p = subprocess.run(["coqc", "-noglob", "-Q", os.path.join(COQ, "theories"), "IB", path],
+                           cwd=rundir, stdout=subprocess.PIPE, stderr=subprocess.STDOUT,
+                           timeout=3000)
+        # coqc killed by a signal (the kernel's OOM killer on an overloaded machine) says nothing
+        # about the cases: wait a little and evaluate the shard again
+        if p.returncode >= 0:
+            break
+        time.sleep(5 + 10 * attempt)
     out = p.stdout.decode("utf-8", "replace")
     if p.returncode != 0:
         return idx, None, out[-3000:], time.time() - t0
